@@ -122,7 +122,7 @@ def gen_cases(ctx):
   def pick(v):
     return rng.choice(relevant(types, v)) if rng.random() < 0.7 else rng.choice(types)
 
-  n = ctx.n(400, 12000)
+  n = ctx.n(300, 12000)
   for _ in range(n):
     v = pv.gen_value(rng)
     out.append((pick(v), v))
@@ -141,7 +141,7 @@ def gen_cases(ctx):
     ctx.extra['exhaustive_space'] = 'all %d type objects x all %d listed edge values' % (len(types), len(edge))
   else:
     for v in edge:
-      for T in rng.sample(relevant(types, v), 2) + [rng.choice(types)]:
+      for T in [rng.choice(relevant(types, v)), rng.choice(types)]:
         out.append((T, v))
   return out
 
@@ -156,8 +156,12 @@ def coq_case(T, v):
   if exc is not None:
     return None, None
   right = bool(T.is_right_type(v))
-  wl = b.val(w)
-  return '(%s, %s, %s, %s, %s)' % (pv.ctype_lit(T), b.val(v), b.tables(), wl, pv.blit(right)), w
+  wl, vl, tl = b.val(w), b.val(v), b.tables(pv.needs(T))
+  if len(vl) > 40:            # share the input literal between the case and the keys of its tables
+    tl = tl.replace(vl, 'v0')
+    wl = wl.replace(vl, 'v0')
+    return '(let v0 := %s in (%s, v0, %s, %s, %s))' % (vl, pv.ctype_lit(T), tl, wl, pv.blit(right)), w
+  return '(%s, %s, %s, %s, %s)' % (pv.ctype_lit(T), vl, tl, wl, pv.blit(right)), w
 
 
 CHECK = ('fun c => match c with (T, v, tbl, w, r) => '
